@@ -12,7 +12,7 @@ From Coq Require Import List Bool String.
 From UV.Base Require Import Cop Res.
 From UV.Gen Require Import Tables.
 From UV.Py Require Import PyStr.
-From UV.Schemes Require Import Common Generic LegacyOpenssl Semver SemverProofs Gem GemProofs Rpm RpmProofs Debian DebianProofs DebianHash.
+From UV.Schemes Require Import Common Generic LegacyOpenssl Semver SemverProofs Gem GemProofs Rpm RpmProofs Debian DebianProofs DebianHash Arch ArchProofs.
 Import ListNotations.
 
 Lemma all_vclasses_complete c : In c all_vclasses.
@@ -66,6 +66,10 @@ Theorem C12_deb_equal_versions_hash_alike :
   forall a b, dok a = true -> dok b = true -> deb_cmp a b = Eq -> deb_hasheq a b = true.
 Proof. exact deb_eq_hash. Qed.
 
+(* alpm: versions that compare equal (1.0 and 1_0, 1.0-1 and 1.0) have the same hash key (epoch and version groups) *)
+Theorem C12_alpm_equal_versions_hash_alike : forall a b, arch_cmp a b = Eq -> arch_hasheq a b = true.
+Proof. exact arch_eq_hash. Qed.
+
 Print Assumptions C12_every_version_class_is_hashable_and_frozen.
 Print Assumptions C12_containers_hash_what_they_compare.
 Print Assumptions C12_generic_equal_versions_hash_alike.
@@ -74,3 +78,4 @@ Print Assumptions C12_semver_equal_versions_hash_alike.
 Print Assumptions C12_gem_equal_versions_hash_alike.
 Print Assumptions C12_rpm_equal_versions_hash_alike.
 Print Assumptions C12_deb_equal_versions_hash_alike.
+Print Assumptions C12_alpm_equal_versions_hash_alike.
